@@ -141,6 +141,8 @@ def keep(d, v, pid, needs, all_props=False, as_v=None, rnd=1):
 
 if __name__ == "__main__" and sys.argv[1] == "keep":
     sys.exit(keep(sys.argv[2], sys.argv[3], sys.argv[4], sys.argv[5]))
+if __name__ == "__main__" and sys.argv[1] == "keep8":     # round 8: variants a, b stored as o, p
+    sys.exit(keep(sys.argv[2], sys.argv[3], sys.argv[4], sys.argv[5], as_v={"a": "o", "b": "p"}[sys.argv[3]], rnd=8))
 if __name__ == "__main__" and sys.argv[1] == "keep7":     # round 7: variants a, b stored as m, n
     sys.exit(keep(sys.argv[2], sys.argv[3], sys.argv[4], sys.argv[5], as_v={"a": "m", "b": "n"}[sys.argv[3]], rnd=7))
 if __name__ == "__main__" and sys.argv[1] == "keep6":     # round 6: variants a, b stored as k, l
